@@ -377,6 +377,11 @@ func (s *Seq) checkRecovery(desc string, before, after *model.Model, complete bo
 		return
 	}
 	if rerr := db.Repair(rec0()); rerr != nil {
+		if (s.Cfg.Async || s.everAsync) && sod.IsUnique(rerr) && filesBreakUniqueness(files) {
+			// asynchronous flush interrupted between two objects: the files are a mix of
+			// versions accepted at different moments and hold the same unique value twice
+			s.fail("crash", "repair-failed-unique-mix-after-async-flush", "%s: the flusher was interrupted between two object files; the files now hold one unique value twice (versions accepted at different moments) and Repair gives up: %v", desc, rerr)
+		}
 		s.fail("crash", "repair-failed:"+window, "%s: Repair fails: %v", desc, rerr)
 	}
 	if cerr := db.Control(); cerr != nil {
@@ -432,4 +437,14 @@ func (s *Seq) tolerateKnown(f func()) {
 		}
 	}()
 	f()
+}
+
+// filesBreakUniqueness: two files hold the same value in a unique field.
+func filesBreakUniqueness(files *model.Model) bool {
+	for _, l := range files.Lids() {
+		if len(files.Conflicts(files.Objs[l], l)) > 0 {
+			return true
+		}
+	}
+	return false
 }
